@@ -197,7 +197,17 @@ def known : List (Nat × Nat × Nat) := [
 
 def knownOf (id : Nat) : Option (Nat × Nat) := (known.find? (·.1 == id)).map (·.2)
 
-/-- `set_block(id, data, flags)` with `strict=True` on an insertion-ordered dict -/
+/-- the flags a `set_block` call stores: the given ones, else those of the existing block, else the table's -/
+def resolveFlags (blocks : List Block) (id : Nat) (flags : Option Nat) (efl : Nat) : Nat :=
+  match flags with
+  | some f => f
+  | none => match blocks.find? (·.id == id) with | some b => b.flags | none => efl
+
+/-- `self.blocks[id] = BlockInfo(flags, data)` on an insertion-ordered dict -/
+def put (blocks : List Block) (id fl : Nat) (data : Bytes) : List Block :=
+  if blocks.any (·.id == id) then blocks.map (fun b => if b.id == id then ⟨id, fl, data⟩ else b) else blocks ++ [⟨id, fl, data⟩]
+
+/-- `set_block(id, data, flags)` with `strict=True` -/
 def setBlock (blocks : List Block) (id : Nat) (data : Bytes) (flags : Option Nat) : Except Err (List Block) :=
   match knownOf id with
   | none => .error (.other "InvalidBlockDataError")
@@ -205,33 +215,54 @@ def setBlock (blocks : List Block) (id : Nat) (data : Bytes) (flags : Option Nat
     if flags.isSome ∧ flags ≠ some efl then .error (.other "InvalidBlockDataError")
     else if data.length ≠ esz then .error (.other "InvalidBlockDataError")
     else
-      let fl := match flags with
-        | some f => f
-        | none => match blocks.find? (·.id == id) with | some b => b.flags | none => 0xE
+      let fl := resolveFlags blocks id flags efl
       if fl ≠ 0x8 ∧ fl ≠ 0xC ∧ fl ≠ 0xA ∧ fl ≠ 0xE then .error (.other "BlockFlagsNotAllowed")
-      else if blocks.any (·.id == id) then .ok (blocks.map fun b => if b.id == id then ⟨id, fl, data⟩ else b)
-      else .ok (blocks ++ [⟨id, fl, data⟩])
+      else .ok (put blocks id fl data)
+
+/-- one iteration of the `to_bytes()` loop: state = (data offset, entry table so far, data area so far) -/
+def toBytesStep (limit : Nat) (acc : Except Err (Nat × Bytes × Bytes)) (b : Block) : Except Err (Nat × Bytes × Bytes) :=
+  match acc with
+  | .error e => .error e
+  | .ok (off, entries, datas) =>
+    let sz := b.data.length
+    if b.id ≥ 2 ^ 32 ∨ sz ≥ 2 ^ 16 ∨ b.flags ≥ 2 ^ 16 then .error (.other "OverflowError")
+    else if sz > 4 then
+      if off < sz ∨ off - sz < limit then .error (.other "OutOfSpaceConfigSaveError")
+      else .ok (off - sz, entries ++ (toLE 4 b.id ++ toLE 4 (off - sz) ++ toLE 2 sz ++ toLE 2 b.flags), b.data ++ datas)
+    else .ok (off, entries ++ (toLE 4 b.id ++ ljust b.data 4 ++ toLE 2 sz ++ toLE 2 b.flags), datas)
 
 /-- `to_bytes()`: entries in dict order, data of blocks larger than 4 bytes packed downwards from the end of the file -/
 def toBytes (blocks : List Block) : Except Err Bytes :=
-  let limit := 4 + blocks.length * 0xC
-  let step (acc : Except Err (Nat × Bytes × Bytes)) (b : Block) : Except Err (Nat × Bytes × Bytes) :=
-    match acc with
-    | .error e => .error e
-    | .ok (off, entries, datas) =>
-      let sz := b.data.length
-      if b.id ≥ 2 ^ 32 ∨ sz ≥ 2 ^ 16 ∨ b.flags ≥ 2 ^ 16 then .error (.other "OverflowError")
-      else if sz > 4 then
-        if off < sz ∨ off - sz < limit then .error (.other "OutOfSpaceConfigSaveError")
-        else .ok (off - sz, entries ++ toLE 4 b.id ++ toLE 4 (off - sz) ++ toLE 2 sz ++ toLE 2 b.flags, b.data ++ datas)
-      else .ok (off, entries ++ toLE 4 b.id ++ ljust b.data 4 ++ toLE 2 sz ++ toLE 2 b.flags, datas)
-  match blocks.foldl step (.ok (saveSize, [], [])) with
+  match blocks.foldl (toBytesStep (4 + blocks.length * 0xC)) (.ok (saveSize, [], [])) with
   | .error e => .error e
   | .ok (off, entries, datas) =>
     if blocks.length ≥ 2 ^ 16 ∨ off ≥ 2 ^ 16 then .error (.other "OverflowError")
     else
       let hdr := toLE 2 blocks.length ++ toLE 2 off ++ entries
       .ok (hdr ++ zeros (saveSize - datas.length - hdr.length) ++ datas)
+
+/-- one iteration of the `load` loop: state = (end of the previous out-of-line data, blocks so far) -/
+def loadStep (raw entries : Bytes) (dataOff : Nat) (acc : Except Err (Nat × List Block)) (x : Nat) : Except Err (Nat × List Block) :=
+  match acc with
+  | .error e => .error e
+  | .ok (last, blocks) =>
+    let b := slice entries (x * 0xC) 0xC
+    let id := readLE (slice b 0 4)
+    let sz := readLE (slice b 8 2)
+    let fl := readLE (slice b 0xA 2)
+    let off := readLE (slice b 4 4)
+    let data := if sz > 4 then slice raw off sz else slice b 4 sz
+    -- sanity_check_blk
+    let chk : Except Err Nat :=
+      if sz ≤ 4 then .ok last
+      else if last < sz ∨ last - sz ≠ off ∨ last - sz < dataOff then .error (.other "InvalidConfigSaveError")
+      else .ok (last - sz)
+    match chk with
+    | .error e => .error e
+    | .ok last' =>
+      match setBlock blocks id data (some fl) with
+      | .error e => .error e
+      | .ok bl => .ok (last', bl)
 
 /-- `ConfigSaveReader.load` -/
 def load (raw : Bytes) : Except Err (List Block) :=
@@ -241,28 +272,55 @@ def load (raw : Bytes) : Except Err (List Block) :=
     let dataOff := readLE (slice raw 2 2)
     if 4 + 0xC * count > dataOff then .error (.other "InvalidConfigSaveError")
     else
-      let entries := slice raw 4 (0xC * count)
-      (List.range count).foldl (fun (acc : Except Err (Nat × List Block)) x =>
-        match acc with
-        | .error e => .error e
-        | .ok (last, blocks) =>
-          let b := slice entries (x * 0xC) 0xC
-          let id := readLE (slice b 0 4)
-          let sz := readLE (slice b 8 2)
-          let fl := readLE (slice b 0xA 2)
-          let off := readLE (slice b 4 4)
-          let data := if sz > 4 then slice raw off sz else slice b 4 sz
-          -- sanity_check_blk
-          let chk : Except Err Nat :=
-            if sz ≤ 4 then .ok last
-            else if last < sz ∨ last - sz ≠ off ∨ last - sz < dataOff then .error (.other "InvalidConfigSaveError")
-            else .ok (last - sz)
-          match chk with
-          | .error e => .error e
-          | .ok last' =>
-            match setBlock blocks id data (some fl) with
-            | .error e => .error e
-            | .ok bl => .ok (last', bl)) (.ok (saveSize, [])) |>.map (·.2)
+      ((List.range count).foldl (loadStep raw (slice raw 4 (0xC * count)) dataOff) (.ok (saveSize, []))).map (·.2)
+
+/-- `get_block(id)` -/
+def getBlock (blocks : List Block) (id : Nat) : Except Err Block :=
+  match blocks.find? (·.id == id) with
+  | some b => .ok b
+  | none => .error (.other "BlockIDNotFoundError")
+
+/-- `s[:s.find('\0')]` on the decoded string (a NUL code point is exactly a zero unit) -/
+def cutAtZero : Smdh.U16s → Smdh.U16s
+  | [] => []
+  | u :: r => if u = 0 then [] else u :: cutAtZero r
+
+/-- `ConfigSaveBlockParser.username` (block 0x000A0000) -/
+def usernameGet (blocks : List Block) : Except Err Smdh.U16s :=
+  match getBlock blocks 0x000A0000 with
+  | .error e => .error e
+  | .ok b =>
+    let u := Smdh.unitsOfBytes b.data
+    if b.data.length % 2 ≠ 0 ∨ !Smdh.validUtf16 u then .error (.other "UnicodeDecodeError") else .ok (cutAtZero u)
+
+/-- `username = value`: `value.encode('utf-16le').ljust(28, b'\0')`, then the strict `set_block` -/
+def usernameSet (blocks : List Block) (value : Smdh.U16s) : Except Err (List Block) :=
+  if !Smdh.validUtf16 value then .error (.other "UnicodeEncodeError")
+  else setBlock blocks 0x000A0000 (ljust (Smdh.bytesOfUnits value) 28) none
+
+/-- `user_time_offset` (block 0x00030001, 8 bytes little-endian) -/
+def timeGet (blocks : List Block) : Except Err Nat := (getBlock blocks 0x00030001).map fun b => readLE b.data
+
+def timeSet (blocks : List Block) (v : Int) : Except Err (List Block) :=
+  if v < 0 ∨ v ≥ 2 ^ 64 then .error (.other "OverflowError") else setBlock blocks 0x00030001 (toLE 8 v.toNat) none
+
+/-- `system_model` (block 0x000F0004): first byte, an enumeration of six models -/
+def modelGet (blocks : List Block) : Except Err Nat :=
+  match getBlock blocks 0x000F0004 with
+  | .error e => .error e
+  | .ok b =>
+    match b.data with
+    | [] => .error .indexError
+    | m :: _ => if m.toNat ≤ 5 then .ok m.toNat else .error .valueError
+
+/-- the setter keeps bytes 1-3 of an existing block -/
+def modelSet (blocks : List Block) (v : Int) : Except Err (List Block) :=
+  let old : Bytes := match getBlock blocks 0x000F0004 with | .ok b => b.data | .error _ => zeros 4
+  if v < 0 ∨ v > 255 then .error .valueError
+  else
+    match old with
+    | [] => .error .indexError
+    | _ :: rest => setBlock blocks 0x000F0004 (UInt8.ofNat v.toNat :: rest) none
 
 end ConfigSave
 end Pyctr
